@@ -269,6 +269,9 @@ pub struct Exec {
     raw: Mutex<Worker>,
     excluded: RefCell<BTreeMap<String, u64>>,
     max_alloc: RefCell<BTreeMap<String, u64>>,
+    /// unexpected failures that cost seconds each (CPU budget, watchdog): after a few of them further
+    /// cases are dropped unexecuted so that shrinking a hang does not take hours
+    slow: std::cell::Cell<u32>,
 }
 
 impl Exec {
@@ -277,7 +280,7 @@ impl Exec {
         let d2 = dir.join("w2");
         std::fs::create_dir_all(&d1).unwrap();
         std::fs::create_dir_all(&d2).unwrap();
-        Exec { worker: Mutex::new(Worker::new(&d1, &["bytes-worker"])), raw: Mutex::new(Worker::new(&d2, &["bytes-worker", "raw"])), excluded: Default::default(), max_alloc: Default::default() }
+        Exec { worker: Mutex::new(Worker::new(&d1, &["bytes-worker"])), raw: Mutex::new(Worker::new(&d2, &["bytes-worker", "raw"])), excluded: Default::default(), max_alloc: Default::default(), slow: Default::default() }
     }
 
     fn exclude(&self, key: &str) -> Verdict {
@@ -309,9 +312,9 @@ impl Exec {
             Outcome::Done { status: 2, msg, .. } => Verdict::fail(format!("C27/{}/panic/{}", dec, norm_panic(msg)), format!("{}; {}", effect(o), shown)),
             Outcome::Done { status: 4, .. } => Verdict::fail(format!("C27/{}/reader-does-not-end", dec), format!("{}; {}", effect(o), shown)),
             Outcome::AllocCap { .. } => Verdict::fail(format!("C27/{}/allocation-over-limit", dec), format!("{}; limit {} bytes; {}", effect(o), alloc_limit(input.len()), shown)),
-            Outcome::Died { signal: Some(s), .. } if *s == libc::SIGXCPU => Verdict::fail(format!("C27/{}/cpu-budget-exceeded", dec), format!("more than 2 s of CPU time on this input; {}", shown)),
+            Outcome::Died { signal: Some(s), .. } if *s == libc::SIGXCPU => { self.slow.set(self.slow.get() + 1); Verdict::fail(format!("C27/{}/cpu-budget-exceeded", dec), format!("more than 2 s of CPU time on this input; {}", shown)) }
             Outcome::Died { signal, code, .. } => Verdict::fail(format!("C27/{}/died/signal={:?}/code={:?}", dec, signal, code), format!("{}; {}", effect(o), shown)),
-            Outcome::Timeout => Verdict::Dropped("worker_wall_clock_timeout".into()),
+            Outcome::Timeout => { self.slow.set(self.slow.get() + 1); Verdict::Dropped("worker_wall_clock_timeout".into()) }
             Outcome::Done { .. } => Verdict::Pass,
         }
     }
@@ -321,6 +324,9 @@ impl Exec {
         let limit = alloc_limit(data.len());
         let w = walk(rec, data, limit);
         info.class(format!("dec={}", rec.name()));
+        if self.slow.get() >= 4 && !run_known {
+            return Verdict::Dropped("slow-failure-budget-exhausted".into());
+        }
         if let Stop::Oversize { site, field, value } = &w.stop {
             let key = site_key(*site);
             if !run_known {
@@ -360,6 +366,9 @@ impl Exec {
     /// One archive-file case.
     pub fn judge_archive(&self, file: &[u8], probes: &[Vec<u8>], calls: u8, run_known: bool, info: &mut CaseInfo) -> Verdict {
         info.class("dec=archive");
+        if self.slow.get() >= 4 && !run_known {
+            return Verdict::Dropped("slow-failure-budget-exhausted".into());
+        }
         let limit = alloc_limit(file.len());
         let mut all_probes: Vec<Vec<u8>> = probes.to_vec();
         all_probes.push(b"state".to_vec());
@@ -1344,12 +1353,12 @@ pub fn run(ctx: &Ctx, rep: &mut Report, replay: Option<&serde_json::Value>) {
     phase.mark(rep, "sweep-archive");
 
     // (a) generated bases, one mutation each; (c) arbitrary bytes
-    run_prop(ctx, rep, "records", ctx.tier.pick(10_000, 300_000), (base_strategy(), mutation_strategy()).prop_map(|(base, mutation)| RecCase { base, mutation }), rec_case);
-    run_prop(ctx, rep, "bytes", ctx.tier.pick(5_000, 100_000), raw_strategy(), raw_case);
+    run_prop(ctx, rep, "records", ctx.tier.pick(20_000, 300_000), (base_strategy(), mutation_strategy()).prop_map(|(base, mutation)| RecCase { base, mutation }), rec_case);
+    run_prop(ctx, rep, "bytes", ctx.tier.pick(10_000, 100_000), raw_strategy(), raw_case);
     phase.mark(rep, "records+bytes");
     // recipes come from a pool generated once from the seed, so that base archives can be reused
     let pool = sample_strategy(&recipe_strategy(), ctx.seed_for("archive-recipes"), ctx.tier.pick(150, 3_000));
-    run_prop(ctx, rep, "archive", ctx.tier.pick(5_000, 100_000), (prop::sample::select(pool), amut_strategy()).prop_map(|(recipe, mutation)| ArchCase { recipe, mutation }), arch_case);
+    run_prop(ctx, rep, "archive", ctx.tier.pick(8_000, 100_000), (prop::sample::select(pool), amut_strategy()).prop_map(|(recipe, mutation)| ArchCase { recipe, mutation }), arch_case);
     run_prop(ctx, rep, "archive-bytes", ctx.tier.pick(500, 10_000), prop::collection::vec(any::<u8>(), 0..200).prop_map(|mut d| {
         for (i, b) in ARCH_MAGIC.iter().enumerate() {
             if i < d.len() && d.len() % 4 != 0 {
@@ -1372,9 +1381,9 @@ pub fn run(ctx: &Ctx, rep: &mut Report, replay: Option<&serde_json::Value>) {
     if ctx.tier == Tier::Thorough {
         for rec in Rec::ALL {
             let target = format!("dec_{}", rec.name());
-            crate::fz::campaign(ctx, rep, &target, 1_000_000, 1024, |d, i| x.judge_record(rec, d, true, false, i));
+            crate::fz::campaign(ctx, rep, &target, 1_000_000, 1024, |d, i| x.judge_record(rec, d, true, true, i));
         }
-        crate::fz::campaign(ctx, rep, "archive_file", 300_000, 4096, |d, i| x.judge_archive(d, &probes, CALL_ALL, false, i));
+        crate::fz::campaign(ctx, rep, "archive_file", 300_000, 4096, |d, i| x.judge_archive(d, &probes, CALL_ALL, true, i));
         x.flush(rep);
     }
 }
